@@ -82,6 +82,7 @@ package home
 
 //@ func parseConfig() (err error)
 //@   property C14
+//@   callsites-only
 //@   modifies *
 //@   callsite github.com/google/renameio/v2/maybe.WriteFile(filename, data, perm) requires filename == configFilePath()
 
@@ -124,6 +125,7 @@ package home
 //@ func (m *tlsManager) handleTLSConfigure(w http.ResponseWriter, r *http.Request)
 //@   property C16
 //@   callsites-only
+//@   requires nolocks()
 //@   callsite (*github.com/AdguardTeam/AdGuardHome/internal/home.tlsManager).reconfigureDNSServer(m2) requires new-settings-stored-first: tlsConfGen == old(tlsConfGen) + 1
 //@   modifies *
 
